@@ -292,4 +292,5 @@ package log
 //@   modifies fs, fdone, fsize, fcap
 //@   ensures [C14.create-complete] result0 == nil ==> fs[name] && fdone[name]
 //@   ensures [C13+C14.segment-size] result0 == nil ==> fcap[name] == opt.SegmentSize
+//@   ensures [C14+C10.create-failure-leaves-nothing] result0 != nil ==> !fs[name]
 //@   crash_inv [C14+C10.create-atomic] !fs[name] || fdone[name]
